@@ -112,6 +112,53 @@ def w_rules(P, E):
                         r.violate(("W4", poll.nid, "Ready without done"), "poll can return Ready on a path where `done` was not true", body=poll)
                     if v == "Pending" and false_t and not (false_t[0] in dom[bb]):
                         r.violate(("W4", poll.nid, "Pending although done"), "poll can return Pending although `done` is true", body=poll)
+    # ---- W8: a Pending poll registers the CURRENT waker: from the not-done edge every path to the return stores Some(waker)
+    # into the slot - except past the true edge of `stored.will_wake(cx.waker())` (the stored waker already wakes this task)
+    if done_sw is not None:
+        i, t = done_sw
+        false_t = [bb for v, bb in t["targets"] if v == 0]
+        some_stores = {bi for (bi, bj, k) in _stores(P, poll, "waker") if k == "Some"}
+        for c in poll.calls:
+            if c.path in ("std::option::Option::replace", "std::option::Option::insert", "std::option::Option::get_or_insert") and c.args and \
+                    _cell_hits(P, poll, poll.operand_prov(c.args[0]), "waker"):
+                some_stores.add(c.bb)
+        same_waker_edges = set()
+        for tb in sorted(poll.reach):
+            tt = poll.blocks[tb]["term"]
+            if tt["k"] != "switch" or tt["discr"]["k"] not in ("copy", "move"):
+                continue
+            zero_t = [x for v_, x in tt["targets"] if v_ == 0]
+            for pt in poll.operand_prov(tt["discr"]):
+                if pt[0] == "ret":
+                    k = poll.call_at(pt[1])
+                    if k is not None and k.path.endswith("Waker::will_wake"):
+                        same_waker_edges.add((tb, tt["otherwise"]))
+                elif pt[0] == "val":
+                    rv = poll.blocks[pt[1][0]]["stmts"][pt[1][1]]["rv"]
+                    if rv.get("k") == "unop" and rv.get("op") == "Not":
+                        for p2 in poll.operand_prov(rv.get("a") or {"k": "const"}):
+                            k = poll.call_at(p2[1]) if p2[0] == "ret" else None
+                            if k is not None and k.path.endswith("Waker::will_wake") and zero_t:
+                                same_waker_edges.add((tb, zero_t[0]))      # !will_wake == false  <=>  will_wake
+        if false_t and some_stores:
+            seen_, work_ = {false_t[0]}, [false_t[0]]
+            leak = False
+            while work_:
+                x = work_.pop()
+                if x in poll.returns:
+                    leak = True
+                    break
+                for y in poll.succ.get(x, []):
+                    if y in some_stores or (x, y) in same_waker_edges or y in seen_:
+                        continue
+                    seen_.add(y)
+                    work_.append(y)
+            r.instance(("W8", poll.nid), True, "waker stores at %s, will_wake edges %s" % (sorted(some_stores), sorted(same_waker_edges)))
+            if leak:
+                r.violate(("W8", poll.nid, "pending poll may keep a stale waker"),
+                          "a poll that finds the source still running can return Pending without storing the waker of THIS poll (and "
+                          "without having found that the stored waker wakes the same task): a future re-polled from another task is "
+                          "never woken", body=poll)
     for b in P.bodies.values():
         if not b.nid.startswith("operators::to_vec::") and not b.nid.startswith("<operators::to_vec::"):
             continue
